@@ -175,8 +175,11 @@ class AbstractInventory(ABC):
 
         for nuc, inp in contents.items():
             if isinstance(inp, (numbers.Number, Expr)):
-                if inp >= 0:
-                    continue
+                try:
+                    if inp >= 0:
+                        continue
+                except TypeError:  # e.g. SymPy NaN, symbols or complex numbers
+                    pass
             raise ValueError(f"{inp} is not a valid quantity of nuclide {nuc}.")
 
     def _get_atomic_mass(self, nuc: str) -> Union[float, Expr]:
@@ -1487,6 +1490,7 @@ class InventoryHP(AbstractInventory):
                     f"Decay dataset supplied to {self.__class__.__name__} constructor does not "
                     "contain SymPy data."
                 ) from None
+            self._check_values(contents)
             contents = {nuc: nsimplify(val) for nuc, val in contents.items()}
 
         self.sig_fig = 320
